@@ -706,12 +706,12 @@ def safe_module(rng, maxw=6):
     readable = ins + regs
     for k in range(rng.randint(1, 2)):
         c = Signal(rng.randint(1, maxw), name_override="c%d" % k)
-        g = L.SafeGen(rng, list(readable), [])
+        g = L.SafeGen(rng, list(readable), [], complex_slices=True)
         sg = L.StmtGen(rng, SafeAdapter(g))
         m.comb += sg.stmts([c], rng.randint(0, 2))
         combs.append(c)
         readable = readable + [c]
-    g = L.SafeGen(rng, list(readable), [])
+    g = L.SafeGen(rng, list(readable), [], complex_slices=True)
     sg = L.StmtGen(rng, SafeAdapter(g))
     m.sync += sg.stmts(regs, rng.randint(1, 2))
     # internal registers only (an `output reg` port carries no initialiser), comb signals as ports
@@ -730,7 +730,7 @@ class SafeAdapter:
         return self.g.top(max(1, depth))
 
     def boolean(self, depth):
-        return self.g.boolean(depth)
+        return self.g.boolean(depth, True)
 
     def atom(self):
         return self.g.atom()
